@@ -444,3 +444,38 @@ Proof.
              JObj [("validationLibrary", JStr "yup"); ("outputPath", JStr "./outF")])])])))].
   eexists. eexists. split; [reflexivity|]. split; [reflexivity|]. split; reflexivity.
 Qed.
+
+(* ---------------------------------------------------------------- init -o <standalone file> *)
+Theorem init_file_reject_first f il force : init_invalid f il = true ->
+  run_init_file f il force = RFail f \/ exists e, run_init_file f il force = RReject e f.
+Proof.
+  intros Hi. apply init_invalid_validate in Hi. unfold run_init_file.
+  destruct (fs_exists f (or_else (i_output il) "tauri.conf.json") && negb force); [left; reflexivity|].
+  destruct (validate f (init_config il)) as [e|]; [right; exists e; reflexivity|]. exfalso. apply Hi. reflexivity.
+Qed.
+
+Theorem init_file_no_overwrite f il : fs_exists f (or_else (i_output il) "tauri.conf.json") = true ->
+  run_init_file f il false = RFail f.
+Proof. intros H. unfold run_init_file. rewrite H. reflexivity. Qed.
+
+Theorem init_file_document f il force :
+  init_invalid f il = false ->
+  fs_exists f (or_else (i_output il) "tauri.conf.json") && negb force = false ->
+  norm (init_generated il) <> norm (or_else (i_output il) "tauri.conf.json") ->
+  fs_get (result_fs (run_init_file f il force)) (or_else (i_output il) "tauri.conf.json")
+    = Some (NDoc (Some (flat_json (init_config il))))
+  /\ from_flat (flat_json (init_config il)) = Some (init_config il).
+Proof.
+  intros Hi He Hn. split; [|apply flat_roundtrip]. unfold run_init_file. rewrite He.
+  destruct (validate f (init_config il)) as [e|] eqn:Ev.
+  { assert (init_invalid f il = true) as Hc by (apply init_invalid_validate; congruence). congruence. }
+  set (t := or_else (i_output il) "tauri.conf.json") in *.
+  set (f1 := fs_put f t (NDoc (Some (flat_json (init_config il))))).
+  assert (fs_get f1 t = Some (NDoc (Some (flat_json (init_config il))))) as H1 by apply fs_get_put_same.
+  unfold run_generate.
+  set (c := apply_flags (init_flags il) (search f1 cands)).
+  assert (output_path c = init_generated il) as Ho by reflexivity.
+  destruct (validate f1 c); [exact H1|].
+  destruct (fs_get f1 (project_path c)) as [[| | |]|]; try exact H1.
+  cbn [result_fs]. rewrite Ho. rewrite fs_get_put_other; [exact H1|]. intros E. apply Hn. symmetry. exact E.
+Qed.
